@@ -118,22 +118,29 @@ def run(ctx, report):
                               h.bban.methods["validate_national_checksum"].where, witness={"country": cc, **vals})
 
     # ------------------------------------------------------------------ R09-funnel
-    import ast
-    r_f = report.rule("R09-funnel", floor=1, what="BBAN.random returns, for countries with positions, only results of from_components")
+    r_f = report.rule("R09-funnel", floor=15, what="for every country with computed national digits, whatever BBAN.random returns was produced by from_components (by evaluation)")
     f = h.bban.methods.get("random")
-    if f is None:
-        raise AnalysisError("anchor vanished: BBAN.random")
-    rets = [n for n in ast.walk(f.node) if isinstance(n, ast.Return) and n.value is not None]
-    kinds = []
-    for rt in rets:
-        v = rt.value
-        is_fc = isinstance(v, ast.Call) and isinstance(v.func, ast.Attribute) and v.func.attr == "from_components"
-        guarded_no_pos = _under_no_positions(f.node, rt)
-        kinds.append((rt.lineno, "from_components" if is_fc else ("no-positions branch" if guarded_no_pos else ast.unparse(v)[:60])))
-        if not is_fc and not guarded_no_pos:
-            r_f.finding(f"BBAN.random:return@{ast.unparse(v)[:40]}", f"BBAN.random returns {ast.unparse(v)[:80]!r} without going through from_components (no padding, guards or check digits)",
-                        f"{f.module.relpath}:{rt.lineno}")
-    r_f.instance({"returns": kinds})
+    fc = h.bban.methods.get("from_components")
+    if f is None or fc is None:
+        raise AnalysisError("anchor vanished: BBAN.random / BBAN.from_components")
+    for cc in NAT.COMPUTING:
+        if cc not in reg.countries or not reg.positions(cc):
+            continue
+        outs = _explore_random_funnel(ctx, h.bban, fc, cc, False) + _explore_random_funnel(ctx, h.bban, fc, cc, True)
+        rets = [o for o in outs if o.kind == "return"]
+        bypass = []
+        for o in rets:
+            made = {e["oid"] for e in o.events if e["kind"] == "fc_result"}
+            if not (isinstance(o.value, Obj) and o.value.oid in made):
+                bypass.append(o)
+        r_f.instance({"country": cc, "returning paths": len(rets), "through from_components": len(rets) - len(bypass)})
+        if not rets:
+            r_f.finding(f"BBAN.random:{cc}:no-result", f"BBAN.random({cc!r}) has no returning path", f.where)
+        if bypass:
+            v = bypass[0].value
+            shown = repr(v.strval) if isinstance(v, Obj) else repr(v)
+            r_f.finding("BBAN.random:bypass", f"BBAN.random({cc!r}) can return a value ({shown[:80]}) that was not produced by from_components "
+                        "(no padding, guards or national check digits)", f.where)
     for cc in NAT.COMPUTING:
         if cc in reg.countries and not reg.positions(cc):
             r_f.finding(f"{cc}:positions", f"{cc} has a national algorithm but publishes no positions: random BBANs bypass it", None)
@@ -149,6 +156,48 @@ def _other(d):
 
 def _s(r):
     return f"raises {r[1].name}" if r[0] == "exc" else repr(r[1])
+
+
+def _explore_random_funnel(ctx, bban, fc, cc, use_registry):
+    from .. import ops
+    from ..interp import CannotEvaluate, PathLimit
+    from ..values import ClsRef
+    from .c13 import choice_reps
+    it = ctx.facts.interp(max_paths=6000)
+    it.no_split = 1
+    it.retry_loop_cap = 2
+    it.dedupe_sites = True
+    it.choice_reps = choice_reps
+
+    def through(it_, args, kwargs, node):
+        del it_.intrinsics[fc.qualname]
+        try:
+            res = it_.call_func(fc, args, kwargs, node)
+        finally:
+            it_.intrinsics[fc.qualname] = through
+        if isinstance(res, Obj):
+            it_.event("fc_result", oid=res.oid)
+        return res
+
+    it.intrinsics[fc.qualname] = through
+    try:
+        return [o for o in it.explore(lambda: it.call(it.getattr(ClsRef(bban), "random"), [cc], dict(random=ops.RandVal(True), use_registry=use_registry)))
+                if o.kind != "infeasible"]
+    except (CannotEvaluate, PathLimit) as e:
+        raise AnalysisError(f"cannot evaluate BBAN.random({cc!r}): {e}")
+
+
+def _own_nodes(fnode):
+    """Nodes of a function body without the bodies of nested functions / lambdas (their returns are not its returns)."""
+    import ast
+    out, stack = [], list(ast.iter_child_nodes(fnode))
+    while stack:
+        n = stack.pop()
+        if isinstance(n, (ast.FunctionDef, ast.AsyncFunctionDef, ast.Lambda)):
+            continue
+        out.append(n)
+        stack.extend(ast.iter_child_nodes(n))
+    return out
 
 
 def _under_no_positions(fn, ret):
